@@ -361,10 +361,11 @@ theorem loopNode_good (loop : St → Res) (hl : ∀ s, GoodL s (loop s)) (s : St
     cases hce : r.st.c.err with
     | some e =>
       simp only [hce] at hf ⊢
-      have := g hs0 (by simpa [fail] using hf)
+      rw [loopErrRes_w] at hf
+      have := g hs0 (by simpa using hf)
       rcases this with h | ⟨_, h⟩
       · rw [hre] at h; cases h
-      · rw [hce] at h; simp at h; subst h; simp [fail]
+      · rw [hce] at h; simp at h; subst h; rw [loopErrRes_err]
     | none =>
       simp only [hce] at hf
       have := g hs0 (by simpa using hf)
